@@ -2,12 +2,11 @@
 COMP_TB = ["coq/Model/Comp.v: hand-written mirror of Component::parse_comp (inline payload stream of parse_all, per-level stack, "
            "pushes on the parent's stack, run-length section log, consumed component-name section) and Component::encode_comp "
            "(replay of the log with per-kind cursors, start-section assert, rebuilt name section), tied to /repo by the correspondence "
-           "run; coq/Check/CheckComp.v: the tree equivalence (normal forms) and the D14 / D28 input classes",
+           "run; coq/Check/CheckComp.v: the tree equivalence (normal forms) and the D14 input class",
            "harness/src/bin/comp.rs: decoding of input and output into section trees (items = hash-consed raw bytes; imports/exports = "
            "hash-consed parsed form; modules = hash-consed wasmprinter text), the dump of the real parse_all payload sequence, and the "
-           "re-encoding table (component-type item |-> the item as wrappers.rs re-encodes it: wasm-encoder's RoundtripReencoder with exactly "
-           "the deviating arms overridden -- D28 nested payload-less stream -> future, D29 explicit core rec group in an instance type "
-           "-> separate types -- listed only where the result differs)"]
+           "re-encoding table (component-type item |-> the item as wrappers.rs re-encodes it), empty since the repair of D28 / D29: "
+           "every item is expected to come back unchanged"]
 
 PROPS = {
     "C27": dict(
@@ -15,7 +14,7 @@ PROPS = {
         check_targets=["Check/CheckComp.vo"],
         proof_targets=["Props/C27.vo"],
         theorems=[("C27", "C27_roundtrip_exact"), ("C27", "C27_roundtrip"), ("C27", "C27_depth2"), ("C27", "C27_refuted_D14"),
-                  ("C27", "C27_refuted_D14_panic"), ("C27", "C27_refuted_D28"), ("C27", "C27_checker_sound"), ("C27", "C27_eqvb_reflects")],
+                  ("C27", "C27_refuted_D14_panic"), ("C27", "C27_a_reencoded_item_breaks_the_round_trip"), ("C27", "C27_checker_sound"), ("C27", "C27_eqvb_reflects")],
         quick=dict(n=1200), thorough=dict(n=24000), per_shard=400,
         rule="components built with wasm-encoder's raw Component/section API (every section boundary chosen by the generator: random "
              "interleavings of all twelve section kinds, adjacent sections of one kind, empty sections, component-name section at a random "
@@ -28,11 +27,10 @@ PROPS = {
              "hand-written witnesses; one third of the deep trees are 'chain' shaped (every level's only nested body is its last section) so "
              "that the positive theorem is sampled at depth 3 and 4 too; non-trivial = depth >= 1 and >= 3 sections; distinct by hash of the case term",
         level_text="Proof (Coq, every section tree: unbounded width, arbitrary interleavings, ANY nesting depth) that outside the input "
-                   "classes D14 (a nested component whose bodies at depth >= 2 outnumber its closing chain: deep > chain) and D28 / D29 "
-                   "(a component-type item that wrappers.rs re-encodes differently: payload-less stream inside a nested type declaration, "
-                   "explicit core rec group inside an instance type) the model of parse_comp + encode_comp returns exactly the normal "
+                   "class D14 (a nested component whose bodies at depth >= 2 outnumber its closing chain: deep > chain; D28 and D29 -- component-type items "
+                   "that wrappers.rs re-encoded differently -- are repaired by fix: commits) the model of parse_comp + encode_comp returns exactly the normal "
                    "form of the input tree, hence a tree equivalent to the input; corollary for depth <= 2; vm_compute refutations of the "
-                   "unrestricted statement (content duplicated into an ancestor; encode panic; stream -> future). The model is tied to "
+                   "unrestricted statement (content duplicated into an ancestor; encode panic). The model is tied to "
                    "/repo's working tree by differential evaluation inside Coq on generated components and the repository's fixtures "
                    "(model's payload stream =? the payload sequence parse_all really produced; model round trip =? decoded real output), "
                    "and the independent checker (normal form of the decoded output =? normal form of the decoded input, validator verdict) "
